@@ -106,6 +106,69 @@ Section C05.
     rect_w ws m -> i < length m -> j < length ws ->
     met_get_value A (met_of_cells ws m) i j = Some (nth j (nth i m []) []).
   Proof. exact (met_get_value_proof A). Qed.
+
+  (* MultiEmbeddingTensor: t[i, j] with two integers, negatives wrap, out of range raises *)
+  Theorem met_getitem_ints : forall (ws : list nat) (m : cellmat A) (i j : Z),
+    rect_w ws m ->
+    getitem_pair A _ (met_kernels A) (met_of_cells ws m) (IInt i) (IInt j) =
+    match norm_index (length m) i, norm_index (length ws) j with
+    | Some i', Some j' => Some (ItemValue A _ (nth j' (nth i' m []) []))
+    | _, _ => None
+    end.
+  Proof.
+    intros ws m i j H. unfold getitem_pair. cbn [met_kernels k_rows k_cols k_get_value].
+    change (er (met_of_cells ws m)) with (length m). change (ec (met_of_cells ws m)) with (length ws).
+    destruct (norm_index (length m) i) as [i'|] eqn:Ei; cbn [obind]; [|reflexivity].
+    destruct (norm_index (length ws) j) as [j'|] eqn:Ej; cbn [obind]; [|reflexivity].
+    apply norm_index_lt in Ei. apply norm_index_lt in Ej.
+    rewrite (met_get_value_proof A ws m i' j' H Ei Ej). reflexivity.
+  Qed.
+
+  (* t[i, j] with a non-integer component is exactly "select rows, then columns" (both containers):
+     the "rows, columns or both" clause *)
+  Theorem getitem_pair_is_rows_then_cols : forall (T : Type) (K : kernels A T) (t : T) (i j : index),
+    (forall a b, i = IInt a -> j = IInt b -> False) ->
+    getitem_pair A T K t i j =
+    match select A T K t i 0 with
+    | Some t1 => option_map (ItemTensor A T) (select A T K t1 j 1)
+    | None => None
+    end.
+  Proof.
+    intros T K t i j Hn. unfold getitem_pair.
+    destruct i as [a| | | | |]; try (destruct (select A T K t _ 0); cbn [obind]; [destruct (select A T K _ j 1); reflexivity | reflexivity]).
+    destruct j as [b| | | | |]; try (destruct (select A T K t _ 0); cbn [obind]; [destruct (select A T K _ _ 1); reflexivity | reflexivity]).
+    exfalso. exact (Hn a b eq_refl eq_refl).
+  Qed.
+
+  (* arbitrary programs of selections on the embedding container *)
+  Fixpoint spec_prog_w (ws : list nat) (m : cellmat A) (p : list (nat * index)) : option (list nat * cellmat A) :=
+    match p with
+    | [] => Some (ws, m)
+    | (d, ix) :: rest =>
+        match py_positions (if d =? 0 then length m else length ws) ix with
+        | Some pos => spec_prog_w (pick_ws d pos ws) (pick d pos m) rest
+        | None => None
+        end
+    end.
+  Fixpoint met_prog (t : met A) (p : list (nat * index)) : option (met A) :=
+    match p with
+    | [] => Some t
+    | (d, ix) :: rest => match select A _ (met_kernels A) t ix d with Some t' => met_prog t' rest | None => None end
+    end.
+
+  Theorem met_program_refines : forall (p : list (nat * index)) (ws : list nat) (m : cellmat A),
+    rect_w ws m -> Forall (fun s => fst s < 2) p ->
+    met_prog (met_of_cells ws m) p = option_map (fun wm => met_of_cells (fst wm) (snd wm)) (spec_prog_w ws m p)
+    /\ (forall ws' m', spec_prog_w ws m p = Some (ws', m') -> rect_w ws' m').
+  Proof.
+    induction p as [|[d ix] rest IH]; intros ws m Hr Hp.
+    - simpl. split; [reflexivity|]. intros ws' m' H. injection H as <- <-. exact Hr.
+    - inversion Hp as [|x l Hd Hrest]; subst. simpl in Hd.
+      cbn [met_prog spec_prog_w]. rewrite (met_select_refines_proof A ws m ix d Hr Hd).
+      destruct (py_positions (if d =? 0 then length m else length ws) ix) as [pos|] eqn:E.
+      + apply IH; [|exact Hrest]. exact (pick_rect_w_proof A ws m ix d pos Hr Hd E).
+      + split; [reflexivity|discriminate].
+  Qed.
 End C05.
 
 Print Assumptions batched_arange_docstring.
@@ -118,6 +181,9 @@ Print Assumptions mnt_wf_intrinsic.
 Print Assumptions met_select_refines.
 Print Assumptions pick_rect_w.
 Print Assumptions met_get_value_spec.
+Print Assumptions met_getitem_ints.
+Print Assumptions getitem_pair_is_rows_then_cols.
+Print Assumptions met_program_refines.
 
 (* ---------------------------------------------------------------------- *)
 (* Non-vacuity: the hypotheses are met by concrete non-trivial states, and the
